@@ -122,8 +122,10 @@ def _num(v):
         return repr(v)
 
 
-def concrete_verdict(body, values):
-    """Replay on the real code with plain numbers.  Returns (failed, kind, detail, observed)."""
+def concrete_verdict(body, values, prefer=None):
+    """Replay on the real code with plain numbers.  Returns (failed, kind, detail, observed).
+    prefer: label of the assertion the solver refuted - if it also fails concretely it is the one reported (a model may break
+    several assertions at once; reporting the first would let a listed known finding mask a new violation)."""
     last = None
     for use_fr in (False, True):
         st, val, env = symx.run_concrete(body, values, use_fr)
@@ -131,9 +133,10 @@ def concrete_verdict(body, values):
         if st == 'raised':
             return True, exc_kind(val), '%s: %s' % (type(val).__name__, val), obs, use_fr
         if st == 'ok':
-            for label, cond in val:
-                if not _cond_bool(cond):
-                    return True, 'mismatch:' + label.split('@')[0], label, obs, use_fr
+            failing = [label for label, cond in val if not _cond_bool(cond)]
+            if failing:
+                label = prefer if prefer in failing else failing[0]
+                return True, 'mismatch:' + label.split('@')[0], label, obs, use_fr
         last = (False, st, str(val) if st == 'abort' else '', obs, use_fr)
     return last
 
@@ -162,7 +165,7 @@ def decide(o):
             if m is None:
                 raise Inconclusive('no model for a sat query')
             vals = symx.model_values(pr.ctx, m)
-            failed, ckind, detail, obs, use_fr = concrete_verdict(body, vals)
+            failed, ckind, detail, obs, use_fr = concrete_verdict(body, vals, label)
             if not failed and getattr(body, 'uf', False):
                 # uninterpreted functions: the solver's interpretation of usqrt.. is arbitrary; any concrete
                 # failing run is a real failure, so try a few generic value sets too
@@ -547,7 +550,7 @@ def replay_file(path):
     import logging
     logging.disable(logging.WARNING)
     body = build_body(o)
-    failed, kind, detail, obs, use_fr = concrete_verdict(body, d['values'])
+    failed, kind, detail, obs, use_fr = concrete_verdict(body, d['values'], d.get('detail'))
     print(json.dumps({'oid': d['oid'], 'params': d['params'], 'values': d['values'], 'observed': obs}, indent=1))
     if failed:
         print('VIOLATION property=%s replay=%s   # reproduced: %s (%s)' % (d['property'], path, kind, detail))
